@@ -18,6 +18,11 @@ func H_C04_exact() {
 		f.ImportAlias(p3, "unusedalias")
 	}
 	f.ImportNames(map[string]string{"never/used/a": "a", "never/used/b": "b"})
+	// the path used as a Dict key may be declared a dot-import: it is imported iff its pair renders
+	dot2 := nondetBool("dot_hint_on_dict_key_path")
+	if dot2 {
+		f.ImportAlias(p2, ".")
+	}
 	anon := nondetBool("anon")
 	if anon {
 		f.Anon(p4)
